@@ -554,10 +554,41 @@ class Converter(object):
             sub = self.expr(inner[0])
             if op == '__extension__':
                 return sub
+            # canonical forms (behaviour-preserving spellings must give the same IR):
+            #   &a[i]  ->  a + i        *(a + i)  ->  a[i]
+            core = sub
+            while core is not None and core.k == 'paren':
+                core = core.a[0]
+            if op == '&' and core is not None and core.k == 'idx':
+                return E('bin', op='+', a=[core.a[0], core.a[1]], **mk)
+            if op == '*' and core is not None and core.k == 'bin' and core.op == '+' and \
+                    (core.a[0].t or '').rstrip().endswith('*') and not (core.a[1].t or '').rstrip().endswith('*'):
+                return E('idx', a=[core.a[0], core.a[1]], **mk)
             return E('un', op=op, a=[sub], post=bool(n.get('isPostfix')), **mk)
         if k == 'BinaryOperator':
             a = self.expr(inner[0])
             b = self.expr(inner[1])
+            if n.get('opcode') == '=':
+                #   x = x + e  ->  x += e      x = x - e  ->  x -= e     (x a side-effect free lvalue)
+                rb = b
+                while rb is not None and rb.k in ('paren', 'cast') and rb.a:
+                    if rb.k == 'cast' and rb.macro == 'explicit':
+                        break
+                    rb = rb.a[0]
+                if rb is not None and rb.k == 'bin' and rb.op in ('+', '-') and _pure_lvalue(a):
+                    l0 = rb.a[0]
+                    while l0 is not None and l0.k in ('paren', 'cast') and l0.a and not (l0.k == 'cast' and l0.macro == 'explicit'):
+                        l0 = l0.a[0]
+                    from .ir import show as _show
+                    if l0 is not None and _pure_lvalue(l0) and _show(l0) == _show(a):
+                        return E('bin', op=rb.op + '=', a=[a, rb.a[1]], **mk)
+                    if rb.op == '+':
+                        r0 = rb.a[1]
+                        while r0 is not None and r0.k in ('paren', 'cast') and r0.a and not (r0.k == 'cast' and r0.macro == 'explicit'):
+                            r0 = r0.a[0]
+                        if r0 is not None and _pure_lvalue(r0) and _show(r0) == _show(a) and \
+                                not (a.t or '').rstrip().endswith('*'):
+                            return E('bin', op='+=', a=[a, rb.a[0]], **mk)
             return E('bin', op=n.get('opcode'), a=[a, b], **mk)
         if k == 'CompoundAssignOperator':
             a = self.expr(inner[0])
@@ -720,6 +751,26 @@ def parse_unit(args):
         except OSError:
             pass
     return ('ok', path, blob)
+
+
+def _pure_lvalue(e):
+    """variable, member chain, *p or p[const] of those: no side effects, same object when spelled twice"""
+    while e is not None and e.k == 'paren':
+        e = e.a[0]
+    if e is None:
+        return False
+    if e.k == 'var':
+        return True
+    if e.k == 'mem':
+        return _pure_lvalue(e.a[0])
+    if e.k == 'un' and e.op == '*':
+        x = e.a[0]
+        while x is not None and x.k in ('paren', 'cast') and x.a:
+            x = x.a[0]
+        return x is not None and x.k == 'var'
+    if e.k == 'cast' and e.macro != 'explicit' and e.a:
+        return _pure_lvalue(e.a[0])
+    return False
 
 
 def header_hash():
